@@ -343,9 +343,14 @@ CLAIMED["C03"] = dict(
 EXTRA = {
  "C01": "ADDED: the whole rational-quadratic spline (knots from any unnormalised parameters, bin search, bin formula) is "
         "differentiable at every interior point of its box, knots included (derivative gluing), and the returned log-abs-det "
-        "is the logarithm of that derivative (C01_rq_whole_spline_logabsdet_is_log_derivative).",
+        "is the logarithm of that derivative (C01_rq_whole_spline_logabsdet_is_log_derivative); LogTanh's logarithmic tails (generated "
+        "constants) meet the tanh piece at the cut point and their log-abs-det is the logarithm of the positive slope alpha/|x| "
+        "(C01_logtanh_tails).",
  "C02": "ADDED: C02_rq_whole_spline_round_trips - for the whole rational-quadratic spline the inverse branch undoes the forward "
-        "branch and vice versa on the whole box with negated log-abs-dets, for every accepted configuration and all parameters.",
+        "branch and vice versa on the whole box with negated log-abs-dets, for every accepted configuration and all parameters; "
+        "C02_tanh_sigmoid_cauchy_inverses - both round trips and the log-abs-det negation of tanh, the sigmoid with any temperature "
+        "(inside its clamp) and the Cauchy CDF, from the generated formulas. Every catalogue entry is also exercised as a second "
+        "instance that received the first one's state dict.",
  "C03": "ADDED: C03_rq_whole_spline_onto - the whole rational-quadratic spline attains every value of its target interval.",
  "C17": "Tail bounds that are not representable in float32 (0.1, 0.7, 1.1, 3.3) are part of the search. "
         "ADDED: C17_rq_whole_spline_accepts_its_box - every input of the closed box is accepted in both directions (no domain "
@@ -361,8 +366,10 @@ EXTRA = {
         "scaling / pinning are strictly increasing from one end of the box to the other, every input of the box falls into a bin "
         "with positive width, height and end derivatives, and the whole spline is a strictly increasing bijection of [left, right] "
         "onto [bottom, top] with pinned end points whose inverse branch is its two-sided inverse with negated log-abs-det; the "
-        "default configuration meets the hypotheses for any box and up to 1000 bins. Still by correspondence / search only: the "
-        "assembly of the linear, quadratic and cubic families and the cubic bin.",
+        "default configuration meets the hypotheses for any box and up to 1000 bins; with linear tails it is a strictly increasing "
+        "bijection of the whole real line (C09_rq_unconstrained_is_an_increasing_bijection_of_the_line). The piecewise-linear spline's "
+        "forward direction is proved likewise for any unnormalised pdf (floor-based bin, C09_linear_whole_spline_is_increasing_onto). "
+        "Still by correspondence / search only: the linear inverse, the assembly of the quadratic and cubic families, the cubic bin.",
  "C11": "The search also covers weight_and_logabsdet(), weight_inverse_and_logabsdet() and cached passes in both orders. ADDED: the "
         "bodies of weight / weight_inverse / logabsdet / forward_no_cache / inverse_no_cache (and the cache-filling combined accessor) "
         "of LULinear, QRLinear, SVDLinear and NaiveLinear are regenerated on every run as matrix expression trees and the same "
